@@ -94,17 +94,20 @@ class ModelResultsHandler:
         """
         Create final data frames of results
         """
+        # the frames of different estimands share their key columns (all levels of the aggregate, e.g. the
+        # district in a district election), `reporting` and, for units, `unit_category`; every other column
+        # carries the estimand in its name. Merging on all shared columns keeps one copy of each key.
+        def merge_estimands(x, y):
+            merge_on = [col for col in x.columns if col in y.columns]
+            return pd.merge(x, y, how="inner", on=merge_on)
+
         for agg in self.aggregates:
-            merge_on = ["postal_code", "reporting", agg]
             # joins together dfs of the same level of aggregation (different estimands)
-            agg_df = reduce(lambda x, y: pd.merge(x, y, how="inner", on=merge_on), self.estimates[agg])
+            agg_df = reduce(merge_estimands, self.estimates[agg])
             self.final_results[VALID_AGGREGATES_MAPPING.get(agg)] = agg_df
         if self.include_unit_data:
-            merge_on = ["postal_code", "reporting", "geographic_unit_fips"]
             # joins together unit data dfs (for different estimands)
-            self.final_results["unit_data"] = reduce(
-                lambda x, y: pd.merge(x, y, how="inner", on=merge_on), self.unit_data.values()
-            )
+            self.final_results["unit_data"] = reduce(merge_estimands, self.unit_data.values())
 
     def add_national_summary_estimates(self, nat_sum_estimates_dict):
         df = pd.DataFrame(index=["margin"])
